@@ -192,3 +192,55 @@ func zzC15c2ConnectRequestSeconds() {
 	}
 	vf.Reach("end")
 }
+
+// C12.t: decoded messages that carry instants, elapsed times or intervals - the fields the two
+// directions of the converter treat with different code (OrUnixZero helpers, float seconds, unit
+// multiplication) - encode again and decode back to themselves, for every wire value of the instant
+// (any int64: 0, negative, extreme) and boundary values of the intervals.
+func zzC12tTimeFieldsFromWire() {
+	t := vf.I64("wire.instant")
+	el := vf.I64("wire.elapsed")
+	ivs := [...]uint32{0, 1, 59, 65535, 1 << 22}
+	iv := ivs[vf.Choose("wire.interval", len(ivs))]
+	id := make([]byte, 16)
+	var pb autogen.Message
+	switch vf.Choose("message", 8) {
+	case 0:
+		pb.Message = &autogen.Message_UpstreamOpenResponse{UpstreamOpenResponse: &autogen.UpstreamOpenResponse{RequestId: 2, AssignedStreamId: id, ServerTime: t}}
+	case 1:
+		pb.Message = &autogen.Message_DownstreamOpenResponse{DownstreamOpenResponse: &autogen.DownstreamOpenResponse{RequestId: 2, AssignedStreamId: id, ServerTime: t}}
+	case 2:
+		pb.Message = &autogen.Message_UpstreamMetadata{UpstreamMetadata: &autogen.UpstreamMetadata{RequestId: 3,
+			Metadata: &autogen.UpstreamMetadata_BaseTime{BaseTime: &autogen.BaseTime{SessionId: "s", Name: "n", Priority: 1, ElapsedTime: uint64(el), BaseTime: t}}}}
+	case 3:
+		pb.Message = &autogen.Message_DownstreamMetadata{DownstreamMetadata: &autogen.DownstreamMetadata{RequestId: 3, StreamIdAlias: 4, SourceNodeId: "n",
+			Metadata: &autogen.DownstreamMetadata_BaseTime{BaseTime: &autogen.BaseTime{SessionId: "s", Name: "n", Priority: 1, ElapsedTime: uint64(el), BaseTime: t}}}}
+	case 4:
+		pb.Message = &autogen.Message_UpstreamOpenRequest{UpstreamOpenRequest: &autogen.UpstreamOpenRequest{RequestId: 2, SessionId: "s", AckInterval: iv, ExpiryInterval: iv}}
+	case 5:
+		pb.Message = &autogen.Message_DownstreamOpenRequest{DownstreamOpenRequest: &autogen.DownstreamOpenRequest{RequestId: 2, ExpiryInterval: iv}}
+	case 6:
+		pb.Message = &autogen.Message_ConnectRequest{ConnectRequest: &autogen.ConnectRequest{RequestId: 1, ProtocolVersion: "2.0.0", NodeId: "n", PingInterval: iv, PingTimeout: iv}}
+	case 7:
+		pb.Message = &autogen.Message_DownstreamChunk{DownstreamChunk: &autogen.DownstreamChunk{StreamIdAlias: 7,
+			UpstreamOrAlias: &autogen.DownstreamChunk_UpstreamAlias{UpstreamAlias: 3},
+			StreamChunk: &autogen.StreamChunk{SequenceNumber: 5, DataPointGroups: []*autogen.DataPointGroup{{
+				DataIdOrAlias: &autogen.DataPointGroup_DataIdAlias{DataIdAlias: 2},
+				DataPoints:    []*autogen.DataPoint{{ElapsedTime: el, Payload: []byte{1}}},
+			}}}}}
+	}
+	m, err := ProtoToWire(&pb)
+	vf.Assert("decodes", err == nil && m != nil)
+	if err != nil || m == nil {
+		return
+	}
+	again, err := WireToProto(m)
+	vf.Assert("decoded-message-encodes-again", err == nil && again != nil)
+	if err != nil || again == nil {
+		return
+	}
+	back, err := ProtoToWire(again)
+	vf.Assert("re-decodes", err == nil && back != nil)
+	vf.Assert("decodes-back-to-itself", vf.CanonEqual(m, back))
+	vf.Reach("end")
+}
